@@ -119,11 +119,8 @@ def depends(rep, repo):
     that breaks them breaks this property too, so they are part of this check (rule ids keep their C07./C08. prefix)."""
     from checks import c03, c07, c08
     from kvstatic.wavekernel import Kernel
-    K = Kernel(repo)
-    c03.initial_value(rep, K)      # the hazard/initial-final theorems rest on the parity invariant of the timing kernel
-    c03.parity(rep, K)
-    c03.bounds(rep, K)             # an out-of-bounds waveform access corrupts a neighbouring signal
-    c03.siblings(rep, K)           # the four operand arms of the merge loop must agree
+    c03.kernel_rules(rep, repo)    # the hazard/initial-final theorems rest on the parity invariant of the timing kernel; an out-of-bounds
+    #                                waveform access corrupts a neighbouring signal; the four operand arms of the merge loop must agree
     c07.schedule_rules(rep, repo)
     c08.map_rules(rep, repo)
     # the op list is built from Circuit.topological_order(): its traversal rules (C17) are part of this check
